@@ -338,11 +338,11 @@ def rule_layers(rep, repo, tier="quick"):
     rep.unit(unit)
     roles = sorted(all_roles(spec))
     settings = [(True, "all quantizers set"), (False, "no quantizers")]
-    if tier == "thorough" and len(roles) > 1:
-      # one quantizer at a time, and all but one
+    if len(roles) > 1:
+      # one quantizer at a time, and (thorough) all but one
       for r in roles:
         settings.append((frozenset([r]), "only %s quantizer set" % r))
-        if len(roles) > 2:
+        if len(roles) > 2 and tier == "thorough":
           settings.append((frozenset(roles) - {r},
                            "all but the %s quantizer set" % r))
     for quantized, qlabel in settings:
